@@ -46,6 +46,8 @@ type ExecDouble struct {
 	taken    [][]byte // every tx ever returned by GetTxs (first occurrence order)
 	takenSet map[string]bool
 	GetTxsErr int
+	// OnFinal, if set, is called at the start of every SetFinal call (before it is logged).
+	OnFinal func(height uint64)
 }
 
 // NewExecDouble creates an execution double.
@@ -161,6 +163,9 @@ func (e *ExecDouble) ExecuteTxs(ctx context.Context, txs [][]byte, blockHeight u
 
 func (e *ExecDouble) SetFinal(ctx context.Context, blockHeight uint64) error {
 	e.delay("final")
+	if e.OnFinal != nil {
+		e.OnFinal(blockHeight)
+	}
 	e.mu.Lock()
 	defer e.mu.Unlock()
 	call := ExecCall{Seq: len(e.calls), Kind: "final", Height: blockHeight}
